@@ -292,6 +292,16 @@ func genMAL(c *ctx) {
 		`{"type":{"type":"array","items":"long"}}`, `{"type":"record","fields":[{"name":"e","type":["null",{"type":"record"}]}]}`,
 		`null`, `1`, `true`, `{}`, `{"type":1}`, `{"type":"record","fields":{}}`, `{"type":"record","fields":[1]}`,
 	}
+	// complex type names without their object ("fixed" without a size, ...) in every position, for a field the target struct
+	// has ("a") and one it has not ("zz": such a field is only skipped, its decoder is built without a Go type)
+	for _, name := range []string{"a", "zz"} {
+		for _, bare := range []string{`"fixed"`, `"array"`, `"map"`, `"record"`, `"enum"`, `"union"`, `"error"`, `""`, `"nosuchtype"`} {
+			for _, wrap := range []string{`%s`, `{"type":"array","items":%s}`, `{"type":"map","values":%s}`, `["null",%s]`, `[%s,"null"]`, `[%s]`,
+				`{"type":"record","name":"q","fields":[{"name":"x","type":%s}]}`, `{"type":%s}`} {
+				docs = append(docs, `{"type":"record","name":"r","fields":[{"name":"`+name+`","type":`+fmt.Sprintf(wrap, bare)+`}]}`)
+			}
+		}
+	}
 	for _, d := range docs {
 		c.emit(T("mal-schema", H([]byte(d))))
 	}
